@@ -12,7 +12,7 @@ Driver ops of the NATS server shutdown model (C20).
   remembered in `unconf` until the matching `D` arrives.
   Output `ok end=<observable>` or `rejected at <k>:<event>`.
 
-`nsrun <w> <q> <stopPos> <gap> <delay> <jitter> <durs>`  the model's prediction for a configuration: a fair
+`nsrun <w> <q> <stopPos> <gap> <delay> <jitter> <pub2> <durs>` (`nsrun1` = the same, executed in-process by the harness)  the model's prediction for a configuration: a fair
   schedule of the model (first `stopPos` requests arrive, Stop is called, the remaining ones are
   offered while the system runs) is executed to the end.
 -/
@@ -192,6 +192,18 @@ def predictRun (w q stopPos n : Nat) : String :=
   if once && !s.panicked && s.processed.length == s.arrived.length then s!"ok serve:{sv},stop:{st}"
   else s!"violated serve:{sv},stop:{st}"
 
+def stepNsrun (args : List String) : String :=
+  match args with
+  | [w, q, sp, gap, delay, jit, pub2, durs] =>
+    match w.toNat?, q.toNat?, sp.toNat?, gap.toNat?, delay.toNat?, jit.toNat?, pub2.toNat? with
+    | some w, some q, some sp, some gap, some delay, some jit, some pub2 =>
+      let ds := (durs.splitOn ",").map String.toNat?
+      if w < 1 ∨ w > 64 ∨ q > 1024 ∨ gap > 100000 ∨ delay > 100000 ∨ jit > 100000 ∨ pub2 > 500 ∨ ds.isEmpty ∨ ds.length > 400
+          ∨ ds.any (fun d => match d with | some d => d > 20000 | none => true) then "bad-args"
+      else predictRun w q sp ds.length
+    | _, _, _, _, _, _, _ => "bad-args"
+  | _ => "bad-args"
+
 def stepNatsServer (op : String) (args : List String) : Option String :=
   match op, args with
   | "nstrace", [w, q, tr] =>
@@ -201,15 +213,9 @@ def stepNatsServer (op : String) (args : List String) : Option String :=
       let evs := if tr == "." then [] else tr.splitOn ","
       some (validate { s := init w q, unconf := [] } 0 evs)
     | _, _ => some "bad-args"
-  | "nsrun", [w, q, sp, gap, delay, jit, durs] =>
-    match w.toNat?, q.toNat?, sp.toNat?, gap.toNat?, delay.toNat?, jit.toNat? with
-    | some w, some q, some sp, some gap, some delay, some jit =>
-      let ds := (durs.splitOn ",").map String.toNat?
-      if w < 1 ∨ w > 64 ∨ q > 1024 ∨ gap > 100000 ∨ delay > 100000 ∨ jit > 100000 ∨ ds.isEmpty ∨ ds.length > 900 ∨ ds.any (fun d => match d with | some d => d > 1000 | none => true) then some "bad-args"
-      else some (predictRun w q sp ds.length)
-    | _, _, _, _, _, _ => some "bad-args"
+  | "nsrun", args => some (stepNsrun args)
+  | "nsrun1", args => some (stepNsrun args)
   | "nstrace", _ => some "bad-args"
-  | "nsrun", _ => some "bad-args"
   | _, _ => none
 
 end Driver
